@@ -357,12 +357,15 @@ def rule_active(ctx: Ctx):
     eq = ctx.fn("State.__eq__")
     for p in ctx.paths(eq, inline=None, exc_edges="none"):
         pass
-    src = " ".join(norm_stmt(n) for n in own_nodes(eq.node) if isinstance(n, ast.Return))
-    rep.check("self.id == other.id" in src or "other.id == self.id" in src, "C10.active", eq.loc(),
-              "two states are equal only if their ids are (ids are unique within a machine, so exactly one state is active)", eq.key, src)
+    from ..shapes import eq_implies
+
+    ok_eq, src, _atoms = eq_implies(ctx, eq, ["id"])
+    rep.check(ok_eq, "C10.active", eq.loc(),
+              "two states are equal only if their ids are (ids are unique within a machine, so exactly one state is active)", eq.key, f"return {src}")
     ieq = ctx.fn("InstanceState.__eq__")
-    src = " ".join(norm_stmt(n) for n in own_nodes(ieq.node) if isinstance(n, ast.Return))
-    rep.check(src == "return self._state() == other", "C10.active", ieq.loc(), "an instance view compares as the state it wraps", ieq.key, src)
+    srcs = {xshow(p.value, p.events) for p in ctx.paths(ieq, inline=None, exc_edges="none") if p.kind == "return"}
+    rep.check(srcs <= {f"self._state() == {ieq.params[1]}", f"{ieq.params[1]} == self._state()"} and bool(srcs), "C10.active", ieq.loc(),
+              "an instance view compares as the state it wraps", ieq.key, "return " + " | ".join(sorted(srcs)))
 
 
 RULES = [rule_access, rule_written_value, rule_mapping, rule_noshadow, rule_falsy, rule_active]
